@@ -2,6 +2,7 @@ package main
 
 import (
 	"fmt"
+	"reflect"
 	"runtime/debug"
 	"strings"
 	"time"
@@ -93,6 +94,43 @@ var callSpecs = []callSpec{
 			})
 		}
 		return fmt.Sprint(out...)
+	}},
+	{"AllMethods", false, func(a, _ geojson.Object) string {
+		// every exported method of the object's own type that takes no
+		// argument (the type-specific accessors included: Base, Z, Polygon,
+		// Children, Meters ...), found by reflection, and the package-level
+		// helpers that take an Object
+		var out []string
+		v := reflect.ValueOf(a)
+		for i := 0; i < v.NumMethod(); i++ {
+			m := v.Method(i)
+			if m.Type().NumIn() != 0 {
+				continue
+			}
+			res := m.Call(nil)
+			r := v.Type().Method(i).Name + "="
+			for _, x := range res {
+				switch x.Kind() {
+				case reflect.Bool, reflect.Int, reflect.Float64, reflect.String:
+					r += fmt.Sprint(x.Interface()) + ";"
+				case reflect.Struct:
+					if x.Type().PkgPath() == "github.com/tidwall/geojson/geometry" {
+						r += fmt.Sprint(x.Interface()) + ";"
+					} else {
+						r += x.Type().String() + ";"
+					}
+				default:
+					r += x.Type().String() + ";"
+				}
+			}
+			if len(r) > 300 {
+				r = r[:300]
+			}
+			out = append(out, r)
+		}
+		z, ok := geojson.IsPoint(a)
+		out = append(out, fmt.Sprint("IsPoint=", z, ok))
+		return strings.Join(out, " ")
 	}},
 	{"Spatial.Within*", false, func(a, _ geojson.Object) string {
 		s := a.Spatial()
